@@ -7,13 +7,14 @@ from .mml import esc
 
 class N:
     """MathML node: tag, attrs, and either text (token) or kids."""
-    __slots__ = ("tag", "attrs", "kids", "text")
+    __slots__ = ("tag", "attrs", "kids", "text", "raw")
 
     def __init__(self, tag, kids=None, text=None, **attrs):
         self.tag = tag
         self.attrs = {k.rstrip("_").replace("_", "-"): v for k, v in attrs.items()}
         self.kids = kids if kids is not None else ([] if text is None else None)
         self.text = text
+        self.raw = None          # token only: inner XML to emit instead of the escaped text (embedded HTML, mglyph); text = its visible text
 
     def is_token(self):
         return self.kids is None
@@ -21,7 +22,7 @@ class N:
     def xml(self):
         a = "".join(" %s='%s'" % (k, esc(v)) for k, v in self.attrs.items())
         if self.kids is None:
-            return "<%s%s>%s</%s>" % (self.tag, a, esc(self.text), self.tag)
+            return "<%s%s>%s</%s>" % (self.tag, a, self.raw if self.raw is not None else esc(self.text), self.tag)
         if not self.kids:
             return "<%s%s/>" % (self.tag, a)
         return "<%s%s>%s</%s>" % (self.tag, a, "".join(k.xml() for k in self.kids), self.tag)
@@ -30,6 +31,7 @@ class N:
         n = N(self.tag)
         n.attrs = dict(self.attrs)
         n.text = self.text
+        n.raw = self.raw
         n.kids = None if self.kids is None else [k.copy() for k in self.kids]
         return n
 
